@@ -313,6 +313,29 @@ PROPS["C16"] = dict(
     explanation="",
 )
 
+PROPS["C19"] = dict(
+    modules=["common", "c19"],
+    contracts=["sse.lemmas"],
+    no_refute=["sse.lemmas"],
+    native="c19",
+    level="other",
+    trusted=["A-py-1", "A-solver", "A-pyvc"],
+    level_text="Mixed, mostly bounded. DECIDED DEDUCTIVELY: the set of strings the encoder treats as a line break inside `data` - "
+               "read from the AST of build_bytes_from_sse on every run (the regex of re.split, or the documented break set of "
+               "str.splitlines) - is exactly {CR, LF, CRLF} (language-equivalence lemma in the SMT regex theory, witness replayed "
+               "through the real encoder and a reference EventSource parser); the ping literal of both interfaces is the "
+               "comment block; the field-line layout is checked syntactically. BOUNDED (labelled): every block produced by "
+               "the real encoder is decoded by a reference implementation of the WHATWG event-stream algorithm: data = "
+               "'a'+c+'b' for every code point (exhaustive in the thorough tier), all short data strings over the break "
+               "characters, field subsets, pings interleaved with events.",
+    level_note="build_bytes_from_sse is a composition of generator expressions, map and itertools.chain over dict views - outside "
+               "the executor's subset - so the block-decoding lemma is not proved; trusted: str.splitlines break set "
+               "(A-lines-1), re semantics (A-re-2), the reference parser (written from the WHATWG algorithm).",
+    technique="deductive: language-equivalence lemma over the line-break pattern read from the real AST (SMT regex theory); bounded: exhaustive code-point sweep through a reference EventSource parser",
+    explanation="proved: separator language == {CR, LF, CRLF}, ping literal, field layout (syntactic); bounded: block decoding by "
+                "a reference EventSource parser over all code points and short strings.",
+)
+
 NOT_APPLICABLE = {
     "C06": "quantifies over schedules/interleavings (relay thread vs consumer vs closer, asyncio tasks vs ping timer) and is a "
            "bounded-liveness claim; contracts over a sequential, await-erased semantics cannot express an interleaving and "
